@@ -64,25 +64,60 @@ def prepareIndices (p : Prototype) : Indices :=
     row := findIndex p .rowIndex
     column := findIndex p .columnIndex }
 
-/-! ### normalisation ranges -/
+/-! ### normalisation ranges
 
-structure Range where
-  min : Float
-  max : Float
-  halfRange : Float
+The normalisation arithmetic is written once, over any carrier `F` with IEEE-style operations
+(`FloatOps`); the executable model instantiates `F := Float` (native binary64), the theorems of
+C13 quantify over every carrier satisfying the IEEE facts they need. -/
 
+class FloatOps (F : Type) where
+  zero : F
+  half : F                      -- 0.5
+  mul : F → F → F
+  sub : F → F → F
+  div : F → F → F
+  lt : F → F → Bool             -- IEEE `<` (false when either side is NaN)
+  isFinite : F → Bool
+  toF32Bits : F → UInt32        -- `as f32`, bit pattern
+
+instance : FloatOps Float where
+  zero := 0.0
+  half := 0.5
+  mul := (· * ·)
+  sub := (· - ·)
+  div := (· / ·)
+  lt := fun a b => a < b
+  isFinite := Float.isFinite
+  toF32Bits := fun x => x.toFloat32.toBits
+
+structure RangeG (F : Type) where
+  min : F
+  max : F
+  halfRange : F
+
+open FloatOps in
 /-- `Range::from_min_max`: halved values avoid overflow; reversed, empty, NaN and infinite ranges
     are degenerate (everything normalises to 0) -/
-def Range.fromMinMax (min max : Float) : Range :=
-  let h := max * 0.5 - min * 0.5
-  if h > 0.0 && h.isFinite then ⟨min, max, h⟩ else ⟨0.0, 0.0, 0.0⟩
+def RangeG.fromMinMax {F} [FloatOps F] (min max : F) : RangeG F :=
+  let h := sub (mul max half) (mul min half)
+  if lt zero h && isFinite h then ⟨min, max, h⟩ else ⟨zero, zero, zero⟩
 
+open FloatOps in
 /-- Rust `f64::clamp` for `min ≤ max`, non-NaN bounds -/
-def fclamp (v lo hi : Float) : Float := if v < lo then lo else if v > hi then hi else v
+def fclampG {F} [FloatOps F] (v lo hi : F) : F := if lt v lo then lo else if lt hi v then hi else v
 
-def Range.normalize (r : Range) (v : Float) : UInt32 :=
-  if !(r.halfRange > 0.0) then 0
-  else ((fclamp v r.min r.max * 0.5 - r.min * 0.5) / r.halfRange).toFloat32.toBits
+open FloatOps in
+def RangeG.normalizeF {F} [FloatOps F] (r : RangeG F) (v : F) : F :=
+  div (sub (mul (fclampG v r.min r.max) half) (mul r.min half)) r.halfRange
+
+open FloatOps in
+def RangeG.normalize {F} [FloatOps F] (r : RangeG F) (v : F) : UInt32 :=
+  if !(lt zero r.halfRange) then 0
+  else toF32Bits (r.normalizeF v)
+
+abbrev Range := RangeG Float
+def Range.fromMinMax (min max : Float) : Range := RangeG.fromMinMax min max
+def Range.normalize (r : Range) (v : Float) : UInt32 := RangeG.normalize r v
 
 def f32ToF64 (b : UInt32) : Float := (Float32.ofBits b).toFloat
 
